@@ -322,7 +322,7 @@ fn run_net(case: &Value) -> Value {
         trace.push(d);
     }
     let ops = case["ops"].as_array().unwrap();
-    let mut bad = json!({"find_bad": 0, "nonfinite_w": 0, "nonfinite_e": 0, "nonfinite_m": 0});
+    let mut bad = json!({"find_bad": 0, "nonfinite_w": 0, "nonfinite_e": 0, "nonfinite_m": 0, "max_err_exp": -2000, "first_nonfinite_op": -1});
     for (k, op) in ops.iter().enumerate() {
         if op["op"].as_str().unwrap() == "lr" {
             net.set_learning_rate(i64_of(&op["v"]) as Float / 16.);
@@ -345,8 +345,17 @@ fn run_net(case: &Value) -> Value {
         if brief && k + 1 < ops.len() {
             // long streams: only accumulate the exploration-level monitors
             for (_, node) in net.iter() {
+                if node.error > 0. {
+                    let e = if node.error.is_finite() { node.error.log2().ceil() as i64 } else { 5000 };
+                    if e > bad["max_err_exp"].as_i64().unwrap() {
+                        bad["max_err_exp"] = json!(e);
+                    }
+                }
                 if !node.error.is_finite() {
                     bad["nonfinite_e"] = json!(bad["nonfinite_e"].as_i64().unwrap() + 1);
+                    if bad["first_nonfinite_op"].as_i64().unwrap() < 0 {
+                        bad["first_nonfinite_op"] = json!(k);
+                    }
                 }
                 if node.weights.iter().any(|w| !w.is_finite()) {
                     bad["nonfinite_w"] = json!(bad["nonfinite_w"].as_i64().unwrap() + 1);
